@@ -156,9 +156,23 @@ func (e *Env) RunCheck(ctx context.Context, ev *CheckEv, ts *typesystem.TypeSyst
 	switch {
 	case ev.Eng == "server" || strings.HasPrefix(ev.Eng, "server:"):
 		var resp *openfgav1.CheckResponse
-		resp, err = e.S.Check(ctx, &openfgav1.CheckRequest{StoreId: e.StoreID, AuthorizationModelId: e.ModelID,
-			TupleKey:         &openfgav1.CheckRequestTupleKey{Object: ev.O.String(), Relation: ev.R, User: ev.U.String()},
-			ContextualTuples: CtxTuples(ev.Ctxt), Context: ev.Ctx.ToProto(), Consistency: consistency(ev.HC)})
+		call := func() {
+			resp, err = e.S.Check(ctx, &openfgav1.CheckRequest{StoreId: e.StoreID, AuthorizationModelId: e.ModelID,
+				TupleKey:         &openfgav1.CheckRequestTupleKey{Object: ev.O.String(), Relation: ev.R, User: ev.U.String()},
+				ContextualTuples: CtxTuples(ev.Ctxt), Context: ev.Ctx.ToProto(), Consistency: consistency(ev.HC)})
+		}
+		if ev.Eng == "server:v2" {
+			// KF-28: Server.Check with weighted_graph_check runs away the same way (goroutine dump: main goroutine
+			// three minutes inside Server.v2Check > ResolveUnionEdges, 18 406 goroutines)
+			if !Watchdog(V2RunawayLimit+5*time.Second, call) {
+				V2RanAway.Store(true)
+				ev.Got, ev.Errk, ev.Err = "ERR", "runaway", fmt.Sprintf("no answer within %s", V2RunawayLimit+5*time.Second)
+				recordRunaway(ev)
+				return
+			}
+		} else {
+			call()
+		}
 		allowed = resp.GetAllowed()
 	case strings.HasPrefix(ev.Eng, "v1:"):
 		// v1:<strategy|script-<seed>>[:b<breadth>][:r<reads>]
